@@ -1,23 +1,26 @@
 #!/bin/bash
 # tools/merge_f.sh <Cxx>: merge the work of fix agent F-<Cxx> (/tmp/vf-F-<Cxx>, branch fix-F-<Cxx>) into /verif.
 # New files are copied; existing .py files are merged at definition level (tools/merge_py.py); evidence, reference.json ignored.
-p=$1; W=${2:-F}; V=/tmp/vf-$W-$p
-mb=$(git -C $V merge-base origin/main fix-$W-$p)
+p=$1; W=${2:-F}; V=/tmp/vf-$W-$p; BR=fix-$W-$p; [ "$W" = B ] && { V=/tmp/vf-$p; BR=fix-$p; }
+mb=$(git -C $V merge-base origin/main $BR)
 cd /verif
-for f in $(git -C $V diff --name-only $mb fix-$W-$p | grep -v "^evidence/" | grep -v "dsa/reference.json"); do
-  if ! git -C $V cat-file -e fix-$W-$p:$f 2>/dev/null; then echo "DELETED in branch: $f (ignored)"; continue; fi
+for f in $(git -C $V diff --name-only $mb $BR | grep -v "^evidence/" | grep -v "dsa/reference.json"); do
+  if ! git -C $V cat-file -e $BR:$f 2>/dev/null; then echo "DELETED in branch: $f (ignored)"; continue; fi
   case $f in
     *.py|check)
       if git cat-file -e $mb:$f 2>/dev/null && [ -f /verif/$f ]; then
-        git show $mb:$f > /tmp/mb_base.py; git -C $V show fix-$W-$p:$f > /tmp/mb_theirs.py
+        git show $mb:$f > /tmp/mb_base.py; git -C $V show $BR:$f > /tmp/mb_theirs.py
         if cmp -s /tmp/mb_base.py /verif/$f; then cp /tmp/mb_theirs.py /verif/$f; echo "taken $f";
         else tools/merge_py.py /tmp/mb_base.py /verif/$f /tmp/mb_theirs.py /verif/$f && echo "merged $f" || echo "MERGE FAILED $f"; fi
       else
-        mkdir -p $(dirname /verif/$f); git -C $V show fix-$W-$p:$f > /verif/$f; echo "new file $f"
+        mkdir -p $(dirname /verif/$f); git -C $V show $BR:$f > /verif/$f; echo "new file $f"
       fi;;
     seeded/*/meta.json|selftest/*.f.json|notes/*)
-      mkdir -p $(dirname /verif/$f); git -C $V show fix-$W-$p:$f > /verif/$f; echo "copied $f";;
-    DESIGN.md) git -C $V diff $mb fix-$W-$p -- DESIGN.md > /verif/notes/DESIGN-$W-$p.diff; echo "DESIGN diff saved to notes/";;
-    *) if git cat-file -e $mb:$f 2>/dev/null; then echo "OTHER FILE changed: $f (not merged)"; else mkdir -p $(dirname /verif/$f); git -C $V show fix-$W-$p:$f > /verif/$f; echo "new file $f"; fi;;
+      mkdir -p $(dirname /verif/$f); git -C $V show $BR:$f > /verif/$f; echo "copied $f";;
+    DESIGN.md) git -C $V diff $mb $BR -- DESIGN.md > /verif/notes/DESIGN-$W-$p.diff; echo "DESIGN diff saved to notes/";;
+    benign/UNRESOLVED.txt)
+      git -C $V diff $mb $BR -- $f | grep "^-b" | sed 's/^-//' | while read l; do k=$(echo $l | cut -d' ' -f1); grep -v "^$k " /verif/$f > /tmp/unres.txt; cp /tmp/unres.txt /verif/$f; done
+      git -C $V diff $mb $BR -- $f | grep "^+b" | sed 's/^+//' >> /verif/$f; echo "unresolved list updated";;
+    *) if git cat-file -e $mb:$f 2>/dev/null; then echo "OTHER FILE changed: $f (not merged)"; else mkdir -p $(dirname /verif/$f); git -C $V show $BR:$f > /verif/$f; echo "new file $f"; fi;;
   esac
 done
